@@ -635,6 +635,15 @@ def valid_packets(ctx):
         # fragmented LP
         if rng.random() < 0.3:
             out.append(('fragmented', 0x64, G.tlv(0x64, G.tlv(0x52, b'\x00') + G.tlv(0x53, b'\x02') + G.tlv(0x50, inner[:5]))))
+            # fragment-labelled envelopes whose payload happens to be a complete packet (seeded regression C06b):
+            # every combination of FragIndex / FragCount presence and small values
+            fi = rng.choice([None, b'\x00', b'\x01', b'\x02'])
+            fc = rng.choice([None, b'\x00', b'\x01', b'\x02', b'\x03'])
+            if fi is None and fc is None:
+                fi = b'\x01'
+            fh = (G.tlv(0x52, fi) if fi is not None else b'') + (G.tlv(0x53, fc) if fc is not None else b'')
+            out.append(('fragmented-whole', 0x64, G.tlv(0x64, fh + G.tlv(0x50, rng.choice([inter, data])))))
+            out.append(('fragmented-nack', 0x64, G.tlv(0x64, fh + G.tlv(0x320, G.tlv(0x321, b'\x96')) + G.tlv(0x50, inter))))
         # unknown packet types, LP inside LP
         if rng.random() < 0.3:
             t = rng.choice([0, 1, 7, 8, 9, 0x65, 0x320, 253, 65536])
@@ -799,6 +808,24 @@ def oracle_receive(ctx, front, loop, origin, typ, w, action, npend, nhand):
         return t not in (0, 1, 2) and t <= 65535
     if pkt_name and all(usable(c) for c in pkt_name):
         pn = pkt_name
+    if pn is None and typ == 0x64:
+        # a packet the model drops: let the tables hold entries that its payload WOULD address if it were
+        # (wrongly) processed, so that "dropped" is observable (independent, lenient reading of the envelope)
+        try:
+            _, a = TG.read_num(w, 0)
+            _, b = TG.read_num(w, a)
+            for t0, p0 in (TG.tlv_walk(w[a + b:]) or []):
+                if t0 == 0x50 and p0[:1] in (b'\x05', b'\x06'):
+                    _, a2 = TG.read_num(p0, 0)
+                    _, b2 = TG.read_num(p0, a2)
+                    for t1, p1 in (TG.tlv_walk(p0[a2 + b2:]) or []):
+                        if t1 == 7:
+                            comps = [G.tlv(ct, cv) for ct, cv in (TG.tlv_walk(p1) or [])]
+                            if comps and all(usable(c) for c in comps):
+                                pn = comps
+                            break
+        except Exception:   # noqa
+            pn = None
     sc = Scenario(ctx, front, loop, npend, nhand, pn)
     app = sc.app
     case = {'front': front.ver, 'typ': typ, 'wire': w, 'origin': origin, 'pending': [b''.join(bytes(c) for c in n) for n, _, _ in sc.pend],
